@@ -106,6 +106,14 @@ def main(tier, seed):
             pts.sort(key=lambda p: p["time"])
             hist = [("insert", pts, None, "multiple")]
         op = make_op(g, kind)
+        if kind == "update_nochange" and (i // len(kinds)) % 3 != 2:
+            # the time a point already has, handed in again - in another zone, or as a naive datetime (local time): the same instant, no change;
+            # the rows are in compact-prefix form, so a needless rewrite shows in the bytes
+            tgt = [p for p in pts if "id" in p["tags"]]
+            if tgt:
+                p0 = r.choice(tgt)
+                hist = [("insert", pts, None, "multiple", "compact")] + [h for h in hist[1:] if h[0] not in ("insert", "update_all")]
+                op = ("update", ("S", "tags", [("k", "id")], ("cmp", "==", ("s", p0["tags"]["id"]))), {"time": ("static", p0["time"]), "naive_time": i % len(kinds) < 9}, None)
         if mode == "a":
             auto = False          # with auto_index the constructor itself reads (and raises) in append-only mode
         other = i % 3 == 1
@@ -217,6 +225,61 @@ def main(tier, seed):
                         break
             finally:
                 _tempfile.tempdir = old_tmp
+    # reads on files AS FOUND: a file whose last row is torn (what a failed append leaves), a file without a final line terminator, a file
+    # with a blank line at the end, an empty file - opened in every mode, read with an explicit reindex() and through lazy reindexing:
+    # whether the read answers or raises, the bytes stay what they were and nothing is left behind
+    found_runs = 0
+    good_rows = None
+    for shape in ("torn last row", "no final line terminator", "blank last line", "empty", "torn quoted cell"):
+        for amode in (None, "r", "w+"):
+            for auto in (False, True):
+                if amode == "w+":
+                    continue                     # w+ empties the file at open, by definition
+                d = ck.work / f"found_{found_runs}"
+                d.mkdir()
+                tdir = d / "tmp"
+                tdir.mkdir()
+                path = str(d / "db.csv")
+                old_tmp = _tempfile.tempdir
+                _tempfile.tempdir = str(tdir)
+                try:
+                    if good_rows is None:
+                        with tf.TinyFlux(path) as db0:
+                            db0.insert_multiple([tf.Point(time=_dt(2020, 1, 1, tzinfo=_tz.utc) + _td(seconds=i), measurement="m1", tags={"k": str(i), "s": "a,b"},
+                                                          fields={"a": float(i)}) for i in range(40)])
+                        good_rows = open(path, "rb").read()
+                    data = {"torn last row": good_rows + b"2020-01-01T00:01:00+00:00,m1,_tag_k,4", "no final line terminator": good_rows.rstrip(b"\r\n"),
+                            "blank last line": good_rows + b"\r\n", "empty": b"", "torn quoted cell": good_rows + b'2020-01-01T00:01:00+00:00,m1,_tag_s,"a,'}[shape]
+                    open(path, "wb").write(data)
+                    try:
+                        db = quiet(lambda: tf.TinyFlux(path, auto_index=auto, **({"access_mode": amode} if amode else {})))
+                    except Exception:  # noqa  the constructor may refuse the file (it reads it when auto_index is on); it must not have changed it
+                        db = None
+                    reads = [] if db is None else [
+                        ("reindex", lambda: quiet(db.reindex)), ("count", lambda: db.count(tf.FieldQuery().a >= 0)), ("all", lambda: db.all()), ("len", lambda: len(db)),
+                        ("get_tag_keys", lambda: db.get_tag_keys()), ("iteration", lambda: list(db)), ("remove matching nothing", lambda: db.remove(tf.TagQuery().k == "nope")),
+                        ("measurement.count", lambda: db.measurement("m1").count(tf.TagQuery().k == "1"))]
+                    for name, fn in [("open", lambda: None)] + reads:
+                        try:
+                            fn()
+                            outcome = "returned"
+                        except BaseException as e:  # noqa
+                            outcome = type(e).__name__
+                        found_runs += 1
+                        after = open(path, "rb").read() if _os.path.exists(path) else None
+                        left = sorted(_os.listdir(tdir)), sorted(x for x in _os.listdir(d) if x not in ("db.csv", "tmp"))
+                        if (after != data or left != ([], [])) and len(direct_bad) < 4:
+                            direct_bad.append({"kind": "failing-input", "operation_kind": f"{name} on a file found with: {shape}", "access_mode": amode or "r+", "auto_index": auto,
+                                               "why": "a read changed the bytes of the database file" if after != data else f"files left behind by a read: {left}",
+                                               "outcome": outcome, "bytes_before": len(data), "bytes_after": len(after or b""), "file_tail": repr(data[-60:])})
+                            break
+                    if db is not None:
+                        try:
+                            db.close()
+                        except Exception:  # noqa
+                            pass
+                finally:
+                    _tempfile.tempdir = old_tmp
     # "once it has returned or RAISED" includes what is not an Exception: a callable or a query test interrupted by KeyboardInterrupt,
     # ending the program with SystemExit, or closed as a generator (GeneratorExit) - nothing may stay behind and the file is as it was
     interrupted_runs = 0
@@ -302,7 +365,7 @@ def main(tier, seed):
             "run-time proxies harness/ioproxy.py; byte comparison of the database file and listings of a private temp directory and the database directory",
             "Print Assumptions: " + json.dumps(b["assumptions"])],
         "theorems": b["theorems"], "forbidden_tokens_found": b["forbidden"],
-        "evaluations": n + fault_runs + closed_runs + interrupted_runs, "fault_injections": fault_runs, "reads_on_a_closed_database": closed_runs, "operations_interrupted_by_a_non_Exception": interrupted_runs, "distinct_nontrivial": len(seen),
+        "evaluations": n + fault_runs + closed_runs + interrupted_runs + found_runs, "fault_injections": fault_runs, "reads_on_a_closed_database": closed_runs, "reads_on_files_as_found": found_runs, "operations_interrupted_by_a_non_Exception": interrupted_runs, "distinct_nontrivial": len(seen),
         "rule": "sampled (history, operation) pairs on a CSV database reopened in access modes r+ / r / a / w+; operation kinds: reads, getters, "
                 "reindex, len/iteration, handle reads, removals and updates that match or change nothing, and (for the leftover rule and read-only modes) real "
                 "writes including ones that raise; reads / getters / reindex / a no-match removal on a database object after close() in every access mode; checked directly: bytes of the file before/after, listing of a private temp directory (every second case "
